@@ -90,6 +90,15 @@ def check_b58check_string(s, cls=None):
 def check_versioned(case):
     v = case['version']
     p = bytes.fromhex(case['payload'])
+    # the codec knows nothing about chains: the same answers under whichever chain happens to be selected (explicit version 0 included)
+    libx.select(libx.CHAINS[(v + len(p)) % 4])
+    try:
+        return _check_versioned(case, v, p)
+    finally:
+        libx.select('mainnet')
+
+
+def _check_versioned(case, v, p):
     want = R.check_encode(v, p)
     o = libx.call('from_bytes', B.CBase58Data.from_bytes, p, v)[1]
     if str(o) != want:
